@@ -71,7 +71,7 @@ def ensure_facts(cfgs, src=REPO, crate="raptorq"):
     _prune_cache()
 
 
-def _prune_cache(keep=6):
+def _prune_cache(keep=int(os.environ.get("VERIF_CACHE_KEEP", "6"))):
     try:
         ds = [os.path.join(CACHE, d) for d in os.listdir(CACHE)]
         ds = [d for d in ds if os.path.isdir(d)]
